@@ -9,11 +9,17 @@ import (
 // runFmt is the type-level stage: for every type of the grid, what FormatType,
 // ParseType, Convert, the HCL printer and the evaluator do (compared with the
 // model line by line) and the type-level oracle on the Go observations.
+// modelled lists the dialects whose FormatType/ParseType/registry have a Coq model.
+var modelled = map[string]bool{"sqlite": true, "mysql": true}
+
 func runFmt(w *out.W, tier, dial string) {
 	w.Rule = "a case is non-trivial when the type carries a non-zero parameter, an upper-case / unknown / parameterised name, or reaches an error or panic outcome"
 	w.Exhaust = true
 	n := 0
 	for _, o := range pickOps(dial) {
+		if !modelled[o.name] {
+			continue
+		}
 		for _, g := range gridTypes(o, tier) {
 			n++
 			id := fmt.Sprintf("%s-%05d", o.name[:1], n)
@@ -31,4 +37,3 @@ func runFmt(w *out.W, tier, dial string) {
 	}
 }
 
-func runSchema(w *out.W, tier, dial string) {}
